@@ -153,6 +153,11 @@ def add_noise(r, spec, enum_level=True, variant_level=True, skip=()):
             spec.prefix = r.choice(PREFIXES)
         if r.random() < 0.5:
             spec.attr_order_seed = r.randint(1, 6)
+        if "nest" not in skip and spec.vis == "pub" and r.random() < 0.2:
+            # the enum lives in its own module and is used from the parent; with a restricted visibility half of the time
+            spec.nest = True
+            if r.random() < 0.5:
+                spec.vis = r.choice(["pub(crate)", "pub(super)"])
     if variant_level:
         unit = [v for v in spec.variants if v.kind == "unit"]
         if "std_default" not in skip and unit and not spec.generics and r.random() < 0.3 and "Default" not in spec.std_derives:
